@@ -175,9 +175,13 @@ func getIndex(index Constant) gep.Index {
 					}
 				}
 			default:
-				// TODO: remove debug output.
-				panic(fmt.Errorf("support for gep index vector element type %T not yet implemented", elem))
-				//return gep.Index{HasVal: false}
+				// a non-integer-literal element (e.g. undef, poison, boolean or
+				// constant expression) has no known value, so the index vector
+				// does not have a concrete value.
+				return gep.Index{
+					HasVal:    false,
+					VectorLen: uint64(len(index.Elems)),
+				}
 			}
 		}
 		return gep.Index{
